@@ -332,6 +332,65 @@ theorem record_within_one_file (mode : Mode) (nr : Nat) (files : List (String ×
     · obtain ⟨f, hf, h⟩ := ih _ s hs
       exact ⟨f, by simp [hf], h⟩
 
+/-! ## statements that abandon a stream in mid-buffer: `nextfile` -/
+
+/-- **`nextfile` drops the rest of the file, whatever of it had already been read into the buffer**: after it the program
+sees exactly the records of the next file (split on its own characters, FNR from 1, NR going on) and of the files after
+it — nothing that the read buffer or the handler still held of the abandoned file. -/
+theorem nextfile_drops_rest_of_file (mode : Mode) (hm : mode.isAuto) (con : Console) (name : String) (cs : Stream)
+    (fs : List (String × Stream)) (he : con.eos = false) (hf : con.files = (name, cs) :: fs) :
+    ∃ c2, nextFile con = some c2 ∧
+      runConsole mode c2 =
+        number con.nr 0 name (specAll mode (delivered cs)) ++
+          specChain mode (con.nr + (specAll mode (delivered cs)).length) (fileChars fs) := by
+  refine ⟨{ con with st := { buf := [], pos := 0, eof := false }, cur := cs, files := fs, fnr := 0, filename := name },
+    (by simp [nextFile, he, hf]), ?_⟩
+  rw [runConsole_spec (modeOK_of_auto hm) (modeProg_of_auto hm) _ _ rfl
+    (show ({ con with st := { buf := [], pos := 0, eof := false }, cur := cs, files := fs, fnr := 0, filename := name } : Console).eos = false
+      from he) (by intro h; cases h)]
+  simp [specRest, pending_fresh]
+
+/-- with no further file `nextfile` ends the input (the main loop stops, END runs) -/
+theorem nextfile_without_further_file (con : Console) (hf : con.files = []) : nextFile con = none := by
+  simp [nextFile, hf]
+
+/-- **A program that uses `nextfile` (at any records it likes) sees the same records for every chunking of every file.** -/
+theorem script_chunk_independent (mode : Mode) (hm : mode.isAuto) (nf : Seen → Bool)
+    (f g : String × Stream) (fs gs : List (String × Stream)) (h : fileChars (f :: fs) = fileChars (g :: gs)) :
+    runScript mode nf (openConsole [] (f :: fs)) = runScript mode nf (openConsole [] (g :: gs)) := by
+  obtain ⟨n1, c1⟩ := f
+  obtain ⟨n2, c2⟩ := g
+  simp only [fileChars, List.map_cons, List.cons.injEq, Prod.mk.injEq] at h
+  obtain ⟨⟨hn, hd⟩, hr⟩ := h
+  apply runScript_view (modeOK_of_auto hm) nf _ _ _ rfl wf_init wf_init
+  simp [Console.view, openConsole, pending, hd, hn, fileChars, hr]
+
+/-- the same from any two reader states holding the same characters (in the buffer, in the handler, in the files to come) -/
+theorem script_depends_on_characters_only (mode : Mode) (hm : mode.isAuto) (nf : Seen → Bool) (c1 c2 : Console)
+    (w1 : WF c1.st) (w2 : WF c2.st) (hv : c1.view = c2.view) : runScript mode nf c1 = runScript mode nf c2 :=
+  runScript_view (modeOK_of_auto hm) nf _ c1 c2 rfl w1 w2 hv
+
+/-- regex RS: the same under `Stable` (missing: unstable matchers, see `unstable_counterexample`) -/
+theorem script_chunk_independent_regex_partial (m : Matcher) (hS : Stable m) (nf : Seen → Bool) (c1 c2 : Console)
+    (w1 : WF c1.st) (w2 : WF c2.st) (hv : c1.view = c2.view) :
+    runScript (.regex m) nf c1 = runScript (.regex m) nf c2 :=
+  runScript_view (mode := .regex m) hS nf _ c1 c2 rfl w1 w2 hv
+
+/-- non-vacuity: one read has put all of `a\nb\nc\n` into the buffer; after the first record `nextfile` is executed; the next
+record is `d` of f2 with FNR 1 — `b` and `c`, though buffered, are not seen -/
+example :
+    let c0 := openConsole [] [("f1", [['a', '\n', 'b', '\n', 'c', '\n']]), ("f2", [['d', '\n']])]
+    let c1 := (readRecordConsole .dflt c0).2
+    (pending c1.st c1.cur = ['b', '\n', 'c', '\n']) ∧
+    ((nextFile c1).map fun c2 => ((readRecordConsole .dflt c2).1, (readRecordConsole .dflt c2).2.nr,
+      (readRecordConsole .dflt c2).2.fnr, (readRecordConsole .dflt c2).2.filename)) = some (some ['d'], 2, 1, "f2") := by
+  decide
+
+/-- non-vacuity of the view hypothesis: two different chunkings are two consoles with the same view -/
+example : (openConsole [] [("f1", [['a', '\n'], ['b']]), ("f2", [['c']])]).view =
+    (openConsole [] [("f1", [['a'], ['\n', 'b']]), ("f2", [['c']])]).view := by
+  simp [Console.view, openConsole, pending, delivered, fileChars]
+
 /-! ## non-vacuity and concrete readings -/
 
 /-- the hypotheses of the regex theorems are satisfiable by a matcher that does find separators -/
